@@ -55,13 +55,26 @@ def sym(symbol, i, fname):
     if symbol == "suffix":
         nm = fname.replace("r#", "") + "_"
         return dict(pat=nm, ty="i64", arg=str(v), show=[nm], exp=[str(v)], name=nm, kind="plain")
+    if symbol == "rawfn":
+        # the function's own name in the OTHER spelling (`r#f` for `f`, `g` for `r#g`): the same identifier to rustc
+        nm = fname[2:] if fname.startswith("r#") else "r#" + fname
+        return dict(pat=nm, ty="i64", arg=str(v), show=[nm], exp=[str(v)], name=nm, kind="plain")
+    if symbol == "rawgen":
+        # the raw spelling of the name the macro would generate for the next parameter
+        nm = "r#arg%d" % (i + 1)
+        return dict(pat=nm, ty="i64", arg=str(v), show=[nm], exp=[str(v)], name=nm, kind="plain")
     if symbol == "tsfn":
         # destructuring whose single binding is the callee's name
         return dict(pat="N(%s)" % fname, ty="N", arg="N(%d)" % v, show=[fname], exp=[str(v)], name=fname, kind="single")
     raise KeyError(symbol)
 
 
-SYMS = ["id", "mut", "ref", "raw", "wild", "tup", "ts1", "ts2", "st", "refpat", "fnname", "gnext", "gprev", "suffix", "tsfn"]
+SYMS = ["id", "mut", "ref", "raw", "wild", "tup", "ts1", "ts2", "st", "refpat", "fnname", "gnext", "gprev", "suffix", "tsfn", "rawfn", "rawgen"]
+FNAMES = ["f", "r#type", "r#g", "arg1"]   # plain, raw keyword, raw non-keyword, spelled like a generated parameter name
+
+
+def unraw(n):
+    return n[2:] if n and n.startswith("r#") else n
 CONTEXTS = ["gen", "nodeps", "mod", "impl", "trait", "traitreq"]
 REQ_OK = {"id", "raw", "wild", "fnname", "gnext", "gprev", "suffix"}   # what a method WITHOUT a body may declare: identifiers and `_`
 
@@ -69,8 +82,10 @@ REQ_OK = {"id", "raw", "wild", "fnname", "gnext", "gprev", "suffix"}   # what a 
 def valid(word, fname):
     names = []
     for i, s in enumerate(word):
+        if s == "rawfn" and fname == "r#type":
+            return False            # `type` cannot be written without r#
         d = sym(s, i, fname)
-        names += [x.lstrip("*") for x in d["show"]]
+        names += [unraw(x.lstrip("*")) for x in d["show"]]
     return len(names) == len(set(names))
 
 
@@ -80,8 +95,10 @@ def enumerate_states(tier):
     states = []
     for w in words:
         for ctx in CONTEXTS:
-            for fname in ("f", "r#type"):
-                if fname == "r#type" and ctx != "gen":
+            for fname in FNAMES:
+                if fname != "f" and ctx not in ("gen", "mod"):
+                    continue
+                if fname in ("r#g", "arg1") and len(w) > 2 and tier != "thorough":
                     continue
                 if ctx in ("trait", "traitreq") and len(w) > 2 and tier != "thorough":
                     continue
@@ -91,7 +108,7 @@ def enumerate_states(tier):
                     continue  # longest words: the two contexts with different call forms
                 if not valid(w, fname):
                     continue
-                key = "n_%s_%s_%s" % ("_".join(w) or "none", ctx, "raw" if fname != "f" else "f")
+                key = "n_%s_%s_%s" % ("_".join(w) or "none", ctx, {"f": "f", "r#type": "raw", "r#g": "rawg", "arg1": "arg1"}[fname])
                 states.append(dict(key=key, word=list(w), ctx=ctx, fname=fname))
     return states, sum(1 for s in states if s["word"]), dict(pattern_alphabet=len(SYMS), word_len=maxlen, contexts=CONTEXTS)
 
@@ -162,7 +179,7 @@ def model(s):
     exp = [e for d in ds for e in d["exp"]]
     want_names = []
     for d in ds:
-        if d["kind"] in ("plain", "single") and d["name"] != s["fname"]:
+        if d["kind"] in ("plain", "single") and unraw(d["name"]) != unraw(s["fname"]):
             want_names.append(d["name"])
         else:
             want_names.append(None)   # any fresh name
@@ -235,9 +252,9 @@ def evaluate(states, report, tier):
                     if len(names) != len(s["word"]):
                         problems.append(("parameter-count", "%s vs %d patterns" % (names, len(s["word"]))))
                         continue
-                    if len(set(names)) != len(names):
+                    if len(set(unraw(n) for n in names)) != len(names):
                         problems.append(("duplicate-names", str(names)))
-                    if s["ctx"] not in ("impl", "trait", "traitreq") and s["fname"] in names:
+                    if s["ctx"] not in ("impl", "trait", "traitreq") and unraw(s["fname"]) in [unraw(n) for n in names]:
                         problems.append(("shadows-callee", "%s contains the function's own name `%s`" % (names, s["fname"])))
                     for i, (got, want) in enumerate(zip(names, m["names"])):
                         if want is not None and got != want:
